@@ -95,6 +95,16 @@ fn fwd_oracle(c: &Case) -> Verdict {
     let e2 = Epoch::from_duration(mk(src_count + c.sep), SCALES[c.src]);
     let r2 = lib!(e2.to_time_scale(ts));
     ensure!(count(r2.duration) > got, "order not preserved for instants {} ns apart: {} then {}", c.sep, got, count(r2.duration));
+    // a further conversion a minute or two later obeys the closed form just the same (nothing carried over from the
+    // conversion before it)
+    {
+        let later = 91 * NS_S + (c.sep * 3_700_000) % (37 * NS_S);
+        let e3 = Epoch::from_duration(mk(src_count + later), SCALES[c.src]);
+        let got3 = count(lib!(e3.to_time_scale(ts)).duration);
+        let diff3 = (got3 - c.off - later) as f64;
+        let want3 = closed_form_ns(c.dynamical, got3);
+        ensure!((diff3 - want3).abs() <= 30.0, "{} J2000{:+} ns -> {} right after a conversion {} s earlier: {} - TAI = {} ns, closed form {} ns (error {} ns > 30)", SCALE_NAMES[c.src], c.off + later, SCALE_NAMES[c.dynamical], later / NS_S, SCALE_NAMES[c.dynamical], diff3, want3, diff3 - want3);
+    }
     // accessors consistent
     let (dur_acc, secs_acc, jde) = if c.dynamical == S_ET {
         (lib!(e.to_et_duration()), lib!(e.to_et_seconds()), lib!(e.to_jde_et_duration()))
